@@ -427,8 +427,14 @@ def exec_tm(case, obs):
         thr = float(t1)
     a, b = PERM_AB[nvox]
     rowof = np.array([(a * f + b) % nvox for f in range(nvox)]).reshape(shape)
-    amap = (rowof + numbering).astype(np.float64)
     alist = tm_angle_list(nvox, seed)
+    if layout == "long":
+        # a fine angular search: 33 000 list rows in front of the ones the map points to (row numbers beyond 32 767)
+        q = np.arange(33000, dtype=np.float64)
+        alist = np.vstack([np.column_stack([-500.0 + 0.01 * q, 1.0 + 0.003 * q, 77.0 + 0.002 * q]), alist])
+        rowof = rowof + 33000
+        layout = "C"
+    amap = (rowof + numbering).astype(np.float64)
     if source == "file":
         path = "c07_angles.csv"
         with open(path, "w") as fh:
@@ -616,6 +622,9 @@ def families(tier, seed):
                           Union(Product(((6, 1, 1), (3, 2, 1)), perms6, (("sigma", 0.5), ("sigma", -0.5), ("sigma", 1.0)), (1.2, 2.5), [0], ["zxz"], ["array"]),
                                 Mapped(Product(lat, (("sigma", 0.25), ("sigma", 1.0), ("sigma", 1.5)), (1.2, 2.5)), lambda c: (big, c[0], c[1], c[2], 0, "zxz", "array"))),
                           seed, tm_core))
+    fams.append(tm_family("tm-long-angle-list",
+                          Union(Mapped(Product(lat, (30, 10), (1.2,), (0, 1), ("zxz", "zzx"), ("array|long", "file|long")), lambda c: (big,) + tuple(c)),
+                                Product(((3, 2, 1),), few, (6, 3), (1.2,), (0, 1), ["zxz"], ["array|long"])), seed, tm_core))
     layouts = ["array|F", "array|view", "array|em", "array|mrc"]
     fams.append(tm_family("tm-map-layouts",
                           Union(Mapped(Product(lat, (60, 30, 10, 1), (1.2, 2.5), (0, 1), layouts), lambda c: (big, c[0], c[1], c[2], c[3], "zxz", c[4])),
